@@ -1,6 +1,967 @@
-//! C06 — not implemented yet.
-use mc_core::Ctx;
+//! C06 — fees are fully paid and exactly distributed.
+//!
+//! Bounded-exhaustive exploration of the configuration grid
+//!     program × tip specifier × costing parameter set × lock pattern
+//! on the real engine (every point restores the same root snapshot, builds its own executable with the
+//! tip / free credit in the execution context and the costing parameters as a system override).
+//! Lock patterns that depend on the cost are derived per (program, tip, parameters) group: an ample lock
+//! teaches the total T, then lock ∈ {T−d, T, T+1 atto, fractions of T, free credit}, then a bisection for
+//! the smallest lock that is not rejected (every probe of the bisection is judged like any other point).
+//!
+//! Oracle (independent of the fee code: BigInt arithmetic on the receipt numbers + a scan of every XRD
+//! vault before/after):
+//!   * a panic is a violation ("rejected, never committed" — and never a crash);
+//!   * Reject/Abort: database unchanged;
+//!   * Commit: units ≤ limits; execution = price·units, finalization likewise, tip = ⌊execution·t⌋+⌊finalization·t⌋,
+//!     royalties = the configured package + component royalty of the probe (0 on failure);
+//!     total = execution+finalization+tip+storage+royalties = proposer+validator set+burn+royalties with
+//!     proposer = ⌊tip·100%⌋+⌊network·25%⌋, validator set = ⌊network·25%⌋;
+//!     every XRD vault of the ledger: locking vaults decrease by paid_v with 0 ≤ paid_v ≤ locked_v (contingent
+//!     locks pay nothing on failure), Σ paid_v + free credit used = total with 0 ≤ credit used ≤ credit,
+//!     `fee_source` agrees with the observed decreases, the rewards vault grows by proposer+validator set and
+//!     the proposer bookkeeping by proposer, the package / component royalty vaults of the probe grow by
+//!     exactly their configured share, every other XRD vault is unchanged (apart from the program's own
+//!     declared XRD movement).
+use crate::common::*;
+use mc_core::{par_range, Ctx, Level, Local};
+use mc_ledger::menu::*;
+use mc_ledger::*;
+use num_bigint::BigInt;
+use num_traits::Zero;
+use radix_engine::blueprints::package::{PackageField, PackageRoyaltyAccumulatorFieldPayload};
+use radix_engine::errors::RuntimeError;
+use radix_engine::kernel::kernel_api::{KernelNodeApi, KernelSubstateApi};
+use radix_engine::object_modules::royalty::{ComponentRoyaltyAccumulatorFieldPayload, ComponentRoyaltyField};
+use radix_engine::system::system_callback::SystemLockData;
+use radix_engine::system::system_db_reader::SystemDatabaseReader;
+use radix_engine::transaction::CostingParameters;
+use radix_engine::vm::{OverridePackageCode, VmApi, VmInvoke};
+use radix_engine_interface::api::{AttachedModuleId, SystemApi};
+use radix_engine_interface::blueprints::package::PackageDefinition;
+use radix_engine_interface::types::PackageRoyaltyConfig;
+use radix_native_sdk::modules::metadata::Metadata;
+use radix_native_sdk::modules::role_assignment::RoleAssignment;
+use radix_native_sdk::modules::royalty::ComponentRoyalty;
+use radix_transactions::model::{ExecutableTransaction, ExecutionContext, PreparedTestTransaction, TestTransaction, TipSpecifier, TransactionCostingParameters, AuthZoneInit};
+use serde_json::{json, Map, Value};
+use std::cell::RefCell;
+use std::collections::{BTreeMap, BTreeSet};
+use std::str::FromStr;
+use std::sync::atomic::{AtomicBool, AtomicU64, Ordering};
+use std::sync::Mutex;
 
-pub fn run(_ctx: Ctx) -> ! {
-    mc_core::machinery_error("C06: not implemented")
+// ------------------------------------------------------------------------------------------------
+// probe package: one blueprint with a package royalty (XRD) and a component royalty (USD)
+// ------------------------------------------------------------------------------------------------
+
+const CODE_ID: u64 = 0xC06;
+const BP: &str = "FeeProbe";
+const PKG_ROYALTY_XRD: &str = "2";
+const COMP_ROYALTY_USD: &str = "3";
+
+#[derive(Clone)]
+struct Probe;
+impl VmInvoke for Probe {
+    fn invoke<Y: SystemApi<RuntimeError> + KernelNodeApi + KernelSubstateApi<SystemLockData>, V: VmApi>(
+        &mut self,
+        export_name: &str,
+        _input: &IndexedScryptoValue,
+        api: &mut Y,
+        _vm_api: &V,
+    ) -> Result<IndexedScryptoValue, RuntimeError> {
+        match export_name {
+            "new" => {
+                let metadata = Metadata::create(api)?;
+                let roles = RoleAssignment::create(OwnerRole::None, indexmap!(), api)?;
+                let royalty = ComponentRoyalty::create(
+                    ComponentRoyaltyConfig { royalty_amounts: indexmap!("paid_method".to_string() => (RoyaltyAmount::Usd(Decimal::from_str(COMP_ROYALTY_USD).unwrap()), false)) },
+                    api,
+                )?;
+                let node = api.new_simple_object(BP, indexmap![])?;
+                let address = api.globalize(
+                    node,
+                    indexmap!(
+                        AttachedModuleId::Metadata => metadata.0,
+                        AttachedModuleId::RoleAssignment => roles.0.0,
+                        AttachedModuleId::Royalty => royalty.0,
+                    ),
+                    None,
+                )?;
+                Ok(IndexedScryptoValue::from_typed(&address))
+            }
+            _ => Ok(IndexedScryptoValue::from_typed(&())),
+        }
+    }
+}
+
+type PSim = Sim<OverridePackageCode<Probe>>;
+
+fn psim_from(snap: &Snap) -> PSim {
+    LedgerSimulatorBuilder::new().with_custom_extension(OverridePackageCode::new(CODE_ID, Probe)).without_kernel_trace().build_from_snapshot(snap.clone())
+}
+
+thread_local! {
+    static WORKER: RefCell<Option<PSim>> = RefCell::new(None);
+}
+
+fn with_psim<R>(snap: &Snap, f: impl FnOnce(&mut PSim) -> R) -> R {
+    WORKER.with(|cell| {
+        let mut slot = cell.borrow_mut();
+        match slot.as_mut() {
+            Some(sim) => sim.restore_snapshot(snap.clone()),
+            None => *slot = Some(psim_from(snap)),
+        }
+        f(slot.as_mut().unwrap())
+    })
+}
+
+// ------------------------------------------------------------------------------------------------
+// grid
+// ------------------------------------------------------------------------------------------------
+
+#[derive(Clone, Copy, Debug, PartialEq, Eq, PartialOrd, Ord, Hash)]
+enum Prog {
+    NoOp,
+    Transfer,
+    Mint,
+    WasmCall,
+    Royalty,
+    RoyaltyThenFail,
+    Failing,
+    /// body of a standard-menu transaction (thorough tier)
+    Menu(Tx),
+}
+
+impl Prog {
+    fn name(&self) -> String {
+        match self {
+            Prog::Menu(t) => format!("Menu{t:?}"),
+            p => format!("{p:?}"),
+        }
+    }
+}
+
+#[derive(Clone, Copy, Debug, PartialEq, Eq, PartialOrd, Ord)]
+enum Payer {
+    Faucet,
+    A,
+    B,
+}
+
+#[derive(Clone, Debug)]
+struct Lock {
+    who: Payer,
+    amount: Decimal,
+    contingent: bool,
+}
+
+#[derive(Clone, Debug)]
+struct Spec {
+    prog: Prog,
+    tip: TipSpecifier,
+    cp: CostingParameters,
+    cp_name: String,
+    locks: Vec<Lock>,
+    free_credit: Decimal,
+    lock_class: String,
+}
+
+struct Env {
+    snap: Snap,
+    db: Db,
+    w: World,
+    x: Extras,
+    pkg: PackageAddress,
+    comp: ComponentAddress,
+    faucet_vaults: Vec<NodeId>,
+    a_vaults: Vec<NodeId>,
+    b_vaults: Vec<NodeId>,
+    rewards_vault: NodeId,
+    pkg_royalty_vault: NodeId,
+    comp_royalty_vault: NodeId,
+    xrd_before: BTreeMap<NodeId, Decimal>,
+    /// bodies of the programs (instructions after the lock prefix) and their signer proofs
+    bodies: BTreeMap<Prog, (TransactionManifestV1, Vec<NonFungibleGlobalId>)>,
+}
+
+fn d(s: &str) -> Decimal {
+    Decimal::from_str(s).unwrap()
+}
+
+fn big(x: Decimal) -> BigInt {
+    BigInt::from_str(&x.attos().to_string()).unwrap()
+}
+
+fn build_env() -> Env {
+    let mut sim: PSim = new_sim_with(OverridePackageCode::new(CODE_ID, Probe));
+    let w = build_world(&mut sim);
+    let x = build_extras(&mut sim, &w, w.f18);
+    let mut def = PackageDefinition::new_functions_only_test_definition(BP, vec![("new", "new", false), ("paid_method", "paid_method", true)]);
+    def.blueprints.get_mut(BP).unwrap().royalty_config =
+        PackageRoyaltyConfig::Enabled(indexmap!("new".to_string() => RoyaltyAmount::Free, "paid_method".to_string() => RoyaltyAmount::Xrd(d(PKG_ROYALTY_XRD))));
+    let pkg = sim.publish_native_package(CODE_ID, def);
+    let r = sim.execute_manifest(ManifestBuilder::new().lock_fee_from_faucet().call_function(pkg, BP, "new", manifest_args!()).build(), vec![]);
+    let comp = r.expect_commit_success().new_component_addresses()[0];
+    // vault ids
+    let (pkg_royalty_vault, comp_royalty_vault) = {
+        let reader = SystemDatabaseReader::new(sim.substate_db());
+        let p = reader
+            .read_typed_object_field::<PackageRoyaltyAccumulatorFieldPayload>(pkg.as_node_id(), ModuleId::Main, PackageField::RoyaltyAccumulator.field_index())
+            .expect("package royalty accumulator")
+            .fully_update_and_into_latest_version();
+        let c = reader
+            .read_typed_object_field::<ComponentRoyaltyAccumulatorFieldPayload>(comp.as_node_id(), ModuleId::Royalty, ComponentRoyaltyField::Accumulator.field_index())
+            .expect("component royalty accumulator")
+            .fully_update_and_into_latest_version();
+        (*p.royalty_vault.0.as_node_id(), *c.royalty_vault.0.as_node_id())
+    };
+    let faucet_vaults = sim.get_component_vaults(FAUCET, XRD);
+    let a_vaults = sim.get_component_vaults(w.a.addr, XRD);
+    let b_vaults = sim.get_component_vaults(w.b.addr, XRD);
+    let db = sim.substate_db().clone();
+    let rewards_vault = read_rewards(&db).expect("rewards").rewards_vault.0 .0;
+    let xrd_before = scan_totals(&db).expect("scan").get(&XRD).map(|t| t.vaults.clone()).unwrap_or_default();
+    // program bodies
+    let a = w.a.addr;
+    let b = w.b.addr;
+    let both = vec![w.a.sig.clone(), w.b.sig.clone()];
+    let mut bodies = BTreeMap::new();
+    let nb = || ManifestBuilder::new();
+    bodies.insert(Prog::NoOp, (nb().build(), both.clone()));
+    bodies.insert(Prog::Transfer, (nb().withdraw_from_account(a, w.f18, dec!(1)).try_deposit_entire_worktop_or_abort(b, None).build(), both.clone()));
+    bodies.insert(Prog::Mint, (nb().mint_fungible(w.f18, dec!(1)).try_deposit_entire_worktop_or_abort(a, None).build(), both.clone()));
+    bodies.insert(Prog::WasmCall, (nb().get_free_xrd_from_faucet().try_deposit_entire_worktop_or_abort(a, None).build(), both.clone()));
+    bodies.insert(Prog::Royalty, (nb().call_method(comp, "paid_method", manifest_args!()).build(), both.clone()));
+    bodies.insert(Prog::RoyaltyThenFail, (nb().call_method(comp, "paid_method", manifest_args!()).assert_worktop_contains(w.f18, dec!(1)).build(), both.clone()));
+    bodies.insert(
+        Prog::Failing,
+        (nb().withdraw_from_account(a, w.f18, dec!(1)).assert_worktop_contains(w.f18, dec!(2)).try_deposit_entire_worktop_or_abort(b, None).build(), both.clone()),
+    );
+    for t in STD_MENU {
+        // menu bodies without XRD movement of their own and without their own lock pattern
+        if matches!(t, Tx::NextRound | Tx::ContingentFail | Tx::ContingentOk | Tx::Faucet | Tx::Stake | Tx::Unstake | Tx::Claim) {
+            continue;
+        }
+        if let Built::Manifest(m, _p) = build_tx(&mut sim, &w, &x, *t) {
+            let mut m = m;
+            m.instructions.retain(|i| !matches!(i, InstructionV1::CallMethod(cm) if cm.method_name.starts_with("lock_")));
+            bodies.insert(Prog::Menu(*t), (m, both.clone()));
+        }
+    }
+    Env { snap: sim.create_snapshot(), db, w, x, pkg, comp, faucet_vaults, a_vaults, b_vaults, rewards_vault, pkg_royalty_vault, comp_royalty_vault, xrd_before, bodies }
+}
+
+impl Env {
+    fn payer_addr(&self, p: Payer) -> ComponentAddress {
+        match p {
+            Payer::Faucet => FAUCET,
+            Payer::A => self.w.a.addr,
+            Payer::B => self.w.b.addr,
+        }
+    }
+    fn payer_vaults(&self, p: Payer) -> &Vec<NodeId> {
+        match p {
+            Payer::Faucet => &self.faucet_vaults,
+            Payer::A => &self.a_vaults,
+            Payer::B => &self.b_vaults,
+        }
+    }
+    fn manifest(&self, spec: &Spec) -> (TransactionManifestV1, Vec<NonFungibleGlobalId>) {
+        let mut b = ManifestBuilder::new();
+        for l in &spec.locks {
+            b = if l.contingent { b.lock_contingent_fee(self.payer_addr(l.who), l.amount) } else { b.lock_fee(self.payer_addr(l.who), l.amount) };
+        }
+        let mut m = b.build();
+        let (body, proofs) = &self.bodies[&spec.prog];
+        m.instructions.extend(body.instructions.iter().cloned());
+        for (h, blob) in &body.blobs {
+            m.blobs.insert(*h, blob.clone());
+        }
+        (m, proofs.clone())
+    }
+    /// XRD movement of the program itself (successful execution only): vault -> delta
+    fn program_xrd_movement(&self, prog: Prog) -> BTreeMap<NodeId, Decimal> {
+        let mut m = BTreeMap::new();
+        if prog == Prog::WasmCall {
+            m.insert(self.faucet_vaults[0], d("-10000"));
+            m.insert(self.a_vaults[0], d("10000"));
+        }
+        m
+    }
+}
+
+fn tips(thorough: bool) -> Vec<TipSpecifier> {
+    use TipSpecifier::*;
+    if !thorough {
+        vec![None, Percentage(1), Percentage(33), Percentage(65535), BasisPoints(1), BasisPoints(3333), BasisPoints(1_000_000)]
+    } else {
+        vec![
+            None,
+            Percentage(1),
+            Percentage(2),
+            Percentage(33),
+            Percentage(99),
+            Percentage(100),
+            Percentage(101),
+            Percentage(65535),
+            BasisPoints(1),
+            BasisPoints(2),
+            BasisPoints(3333),
+            BasisPoints(9999),
+            BasisPoints(10000),
+            BasisPoints(10001),
+            BasisPoints(1_000_000),
+        ]
+    }
+}
+
+fn tip_name(t: &TipSpecifier) -> String {
+    match t {
+        TipSpecifier::None => "none".into(),
+        TipSpecifier::Percentage(p) => format!("{p}%"),
+        TipSpecifier::BasisPoints(b) => format!("{b}bp"),
+    }
+}
+
+/// tip as an exact rational
+fn tip_ratio(t: &TipSpecifier) -> (BigInt, BigInt) {
+    match t {
+        TipSpecifier::None => (BigInt::zero(), BigInt::from(1)),
+        TipSpecifier::Percentage(p) => (BigInt::from(*p), BigInt::from(100)),
+        TipSpecifier::BasisPoints(b) => (BigInt::from(*b), BigInt::from(10000)),
+    }
+}
+
+fn costing_sets(thorough: bool) -> Vec<(String, CostingParameters)> {
+    let main = CostingParameters::babylon_genesis();
+    let mut out = vec![("mainnet".to_string(), main)];
+    let prices: Vec<&str> = if !thorough {
+        vec!["0", "0.000000000000000001", "0.000000000000000003", "0.0000000000000007", "0.00000005", "1"]
+    } else {
+        vec![
+            "0",
+            "0.000000000000000001",
+            "0.000000000000000003",
+            "0.000000000000000011",
+            "0.0000000000000007",
+            "0.000000000000009999",
+            "0.00000000000001",
+            "0.000000000000010001",
+            "0.00000005",
+            "0.000000050000000001",
+            "1",
+        ]
+    };
+    for p in &prices {
+        for zero_aux in [false, true] {
+            let mut c = main;
+            c.execution_cost_unit_price = d(p);
+            c.finalization_cost_unit_price = d(p);
+            if zero_aux {
+                c.usd_price = Decimal::ZERO;
+                c.state_storage_price = Decimal::ZERO;
+                c.archive_storage_price = Decimal::ZERO;
+            }
+            out.push((format!("price={p}{}", if zero_aux { ",usd=0,storage=0" } else { "" }), c));
+        }
+    }
+    // execution and finalization priced differently (tells the two apart)
+    let mut c = main;
+    c.execution_cost_unit_price = d("0.0000000000000007");
+    c.finalization_cost_unit_price = d("0.000000000000000003");
+    out.push(("exec=7e-16,fin=3e-18".into(), c));
+    if thorough {
+        let mut c = main;
+        c.execution_cost_unit_price = d("0.00000005");
+        c.finalization_cost_unit_price = d("0.000000000000000001");
+        out.push(("exec=5e-8,fin=1e-18".into(), c));
+        let mut c = main;
+        c.execution_cost_unit_price = d("0.000000000000000001");
+        c.finalization_cost_unit_price = d("0.00000005");
+        out.push(("exec=1e-18,fin=5e-8".into(), c));
+    }
+    out
+}
+
+fn sub_1e14(p: Decimal) -> bool {
+    !(big(p) % BigInt::from(10_000)).is_zero()
+}
+
+fn price_class(cp: &CostingParameters) -> &'static str {
+    if sub_1e14(cp.execution_cost_unit_price) || sub_1e14(cp.finalization_cost_unit_price) {
+        "sub-1e-14-price"
+    } else {
+        "coarse-price"
+    }
+}
+
+fn tip_class(t: &TipSpecifier) -> &'static str {
+    if t.basis_points() == 0 {
+        "no-tip"
+    } else {
+        "tip"
+    }
+}
+
+fn spec_json(s: &Spec) -> Value {
+    json!({
+        "program": s.prog.name(),
+        "tip": match s.tip { TipSpecifier::None => json!("none"), TipSpecifier::Percentage(p) => json!({"percentage": p}), TipSpecifier::BasisPoints(b) => json!({"basis_points": b}) },
+        "costing": {
+            "name": s.cp_name,
+            "execution_cost_unit_price": s.cp.execution_cost_unit_price.to_string(),
+            "finalization_cost_unit_price": s.cp.finalization_cost_unit_price.to_string(),
+            "usd_price": s.cp.usd_price.to_string(),
+            "state_storage_price": s.cp.state_storage_price.to_string(),
+            "archive_storage_price": s.cp.archive_storage_price.to_string(),
+            "execution_cost_unit_limit": s.cp.execution_cost_unit_limit,
+            "execution_cost_unit_loan": s.cp.execution_cost_unit_loan,
+            "finalization_cost_unit_limit": s.cp.finalization_cost_unit_limit,
+        },
+        "locks": s.locks.iter().map(|l| json!({"payer": format!("{:?}", l.who), "amount": l.amount.to_string(), "contingent": l.contingent})).collect::<Vec<_>>(),
+        "free_credit": s.free_credit.to_string(),
+        "lock_class": s.lock_class,
+    })
+}
+
+// ------------------------------------------------------------------------------------------------
+// execution + oracle
+// ------------------------------------------------------------------------------------------------
+
+fn executable(sim: &mut PSim, env: &Env, spec: &Spec) -> ExecutableTransaction {
+    let (manifest, proofs) = env.manifest(spec);
+    let nonce = sim.next_transaction_nonce();
+    let prepared = TestTransaction::new_v1_from_nonce(manifest, nonce, proofs.into_iter().collect())
+        .prepare(sim.transaction_validator().preparation_settings())
+        .unwrap_or_else(|e| mc_core::machinery_error(&format!("C06: cannot prepare test transaction: {e:?}")));
+    let PreparedTestTransaction::V1(intent) = prepared else { unreachable!() };
+    let n_sigs = intent.initial_proofs.len() + 1;
+    ExecutableTransaction::new_v1(
+        intent.encoded_instructions.clone(),
+        AuthZoneInit::proofs(intent.initial_proofs.clone()),
+        intent.references.clone(),
+        intent.blobs.clone(),
+        ExecutionContext {
+            unique_hash: intent.hash,
+            intent_hash_nullifications: vec![],
+            epoch_range: None,
+            payload_size: intent.encoded_instructions.len() + intent.blobs.values().map(|x| x.len()).sum::<usize>(),
+            num_of_signature_validations: n_sigs,
+            costing_parameters: TransactionCostingParameters { tip: spec.tip, free_credit_in_xrd: spec.free_credit },
+            pre_allocated_addresses: vec![],
+            disable_limits_and_costing_modules: false,
+            proposer_timestamp_range: None,
+        },
+    )
+}
+
+#[derive(Clone, Debug)]
+struct Seen {
+    class: String,
+    /// Some(total cost) for commits
+    total: Option<Decimal>,
+    success: bool,
+    rejected: bool,
+    panicked: bool,
+    exec_units: u32,
+    fin_units: u32,
+}
+
+type Viol = (String, String);
+
+fn mul_floor(x: &BigInt, num: &BigInt, den: &BigInt) -> BigInt {
+    (x * num) / den
+}
+
+fn judge(env: &Env, spec: &Spec, receipt: &TransactionReceipt, after: &Db) -> Result<Seen, Viol> {
+    let suffix = format!("{}:{}:lock={}", price_class(&spec.cp), tip_class(&spec.tip), spec.lock_class);
+    let v = |kind: &str, what: String| -> Viol { (format!("{kind}:{suffix}"), what) };
+    let class = receipt_class(receipt);
+    let fs = &receipt.fee_summary;
+    let mut seen = Seen { class, total: None, success: false, rejected: false, panicked: false, exec_units: fs.total_execution_cost_units_consumed, fin_units: fs.total_finalization_cost_units_consumed };
+    let c = match &receipt.result {
+        TransactionResult::Reject(_) | TransactionResult::Abort(_) => {
+            if after != &env.db {
+                return Err(v("rejected-changed-database", "a rejected transaction changed the database".into()));
+            }
+            seen.rejected = true;
+            return Ok(seen);
+        }
+        TransactionResult::Commit(c) => c,
+    };
+    let success = matches!(c.outcome, TransactionOutcome::Success(_));
+    seen.success = success;
+    // configuration echoed by the receipt
+    if receipt.costing_parameters != spec.cp {
+        return Err(v("receipt-costing-parameters", format!("receipt reports {:?}", receipt.costing_parameters)));
+    }
+    // ---- limits
+    if fs.total_execution_cost_units_consumed > spec.cp.execution_cost_unit_limit {
+        return Err(v("execution-units-over-limit", format!("{} > {}", fs.total_execution_cost_units_consumed, spec.cp.execution_cost_unit_limit)));
+    }
+    if fs.total_finalization_cost_units_consumed > spec.cp.finalization_cost_unit_limit {
+        return Err(v("finalization-units-over-limit", format!("{} > {}", fs.total_finalization_cost_units_consumed, spec.cp.finalization_cost_unit_limit)));
+    }
+    // ---- summary arithmetic (attos, BigInt)
+    let one = BigInt::from(10u8).pow(18);
+    let exec = big(spec.cp.execution_cost_unit_price) * BigInt::from(fs.total_execution_cost_units_consumed);
+    let fin = big(spec.cp.finalization_cost_unit_price) * BigInt::from(fs.total_finalization_cost_units_consumed);
+    if big(fs.total_execution_cost_in_xrd) != exec {
+        return Err(v("execution-cost", format!("reported {} for {} units at {}", fs.total_execution_cost_in_xrd, fs.total_execution_cost_units_consumed, spec.cp.execution_cost_unit_price)));
+    }
+    if big(fs.total_finalization_cost_in_xrd) != fin {
+        return Err(v("finalization-cost", format!("reported {} for {} units at {}", fs.total_finalization_cost_in_xrd, fs.total_finalization_cost_units_consumed, spec.cp.finalization_cost_unit_price)));
+    }
+    let (tn, td) = tip_ratio(&spec.tip);
+    let tip_ref = mul_floor(&exec, &tn, &td) + mul_floor(&fin, &tn, &td);
+    if big(fs.total_tipping_cost_in_xrd) != tip_ref {
+        return Err(v("tip-cost", format!("reported tip {} but floor(exec*t)+floor(fin*t) = {} attos", fs.total_tipping_cost_in_xrd, tip_ref)));
+    }
+    let storage = big(fs.total_storage_cost_in_xrd);
+    if spec.cp.state_storage_price.is_zero() && spec.cp.archive_storage_price.is_zero() && !storage.is_zero() {
+        return Err(v("storage-cost", format!("storage cost {} with zero storage prices", fs.total_storage_cost_in_xrd)));
+    }
+    if storage < BigInt::zero() {
+        return Err(v("storage-cost", "negative storage cost".into()));
+    }
+    // royalties: configured amounts of the probe
+    let charges_royalty = matches!(spec.prog, Prog::Royalty | Prog::RoyaltyThenFail) && success;
+    let pkg_share = if charges_royalty { big(d(PKG_ROYALTY_XRD)) } else { BigInt::zero() };
+    let comp_share = if charges_royalty { (big(d(COMP_ROYALTY_USD)) * big(spec.cp.usd_price)) / &one } else { BigInt::zero() };
+    let royalty_ref = &pkg_share + &comp_share;
+    if big(fs.total_royalty_cost_in_xrd) != royalty_ref {
+        return Err(v("royalty-cost", format!("reported royalties {} but configured package+component royalty = {} attos (success={success})", fs.total_royalty_cost_in_xrd, royalty_ref)));
+    }
+    let total = &exec + &fin + &tip_ref + &storage + &royalty_ref;
+    let total_dec = fs.total_execution_cost_in_xrd + fs.total_finalization_cost_in_xrd + fs.total_tipping_cost_in_xrd + fs.total_storage_cost_in_xrd + fs.total_royalty_cost_in_xrd;
+    seen.total = Some(total_dec);
+    // ---- distribution
+    let fd = &c.fee_destination;
+    let network = &exec + &fin + &storage;
+    let proposer_ref = mul_floor(&tip_ref, &BigInt::from(100), &BigInt::from(100)) + mul_floor(&network, &BigInt::from(25), &BigInt::from(100));
+    let vset_ref = mul_floor(&network, &BigInt::from(25), &BigInt::from(100));
+    let roy_dest: BigInt = fd.to_royalty_recipients.values().map(|x| big(*x)).sum();
+    if big(fd.to_proposer) + big(fd.to_validator_set) + big(fd.to_burn) + &roy_dest != total {
+        return Err(v(
+            "split-sum",
+            format!("proposer {} + validator set {} + burn {} + royalties {} attos != total {} attos", fd.to_proposer, fd.to_validator_set, fd.to_burn, roy_dest, total),
+        ));
+    }
+    if big(fd.to_proposer) != proposer_ref || big(fd.to_validator_set) != vset_ref {
+        return Err(v("split-shares", format!("proposer {} / validator set {} but reference {} / {} attos", fd.to_proposer, fd.to_validator_set, proposer_ref, vset_ref)));
+    }
+    if big(fd.to_burn) < BigInt::zero() {
+        return Err(v("split-negative-burn", format!("burn {}", fd.to_burn)));
+    }
+    for (rcp, amt) in &fd.to_royalty_recipients {
+        use radix_engine::system::system_modules::costing::RoyaltyRecipient;
+        let (ok, expect) = match rcp {
+            RoyaltyRecipient::Package(p, vault) => (*p == env.pkg && *vault == env.pkg_royalty_vault, &pkg_share),
+            RoyaltyRecipient::Component(cm, vault) => (*cm == env.comp && *vault == env.comp_royalty_vault, &comp_share),
+        };
+        if !ok || &big(*amt) != expect {
+            return Err(v("royalty-recipient", format!("royalty recipient {rcp:?} gets {amt}, configured share {expect} attos")));
+        }
+    }
+    // ---- physical movement of XRD: every XRD vault of the ledger, before/after
+    let after_vaults = scan_totals(after).map_err(|e| v("scan-failed", e))?.get(&XRD).map(|t| t.vaults.clone()).unwrap_or_default();
+    let mut locked: BTreeMap<NodeId, Decimal> = BTreeMap::new();
+    let mut non_contingent: BTreeSet<NodeId> = BTreeSet::new();
+    for l in &spec.locks {
+        let vault = env.payer_vaults(l.who)[0];
+        let e = locked.entry(vault).or_insert(Decimal::ZERO);
+        *e = e.checked_add(l.amount).unwrap();
+        if !l.contingent {
+            non_contingent.insert(vault);
+        }
+    }
+    let movement = if success { env.program_xrd_movement(spec.prog) } else { BTreeMap::new() };
+    let all: BTreeSet<NodeId> = env.xrd_before.keys().chain(after_vaults.keys()).copied().collect();
+    let mut paid_sum = BigInt::zero();
+    for vault in all {
+        let before = env.xrd_before.get(&vault).copied().unwrap_or(Decimal::ZERO);
+        let now = after_vaults.get(&vault).copied().unwrap_or(Decimal::ZERO);
+        let delta = big(now) - big(before);
+        let own = movement.get(&vault).map(|x| big(*x)).unwrap_or_else(BigInt::zero);
+        if let Some(lk) = locked.get(&vault) {
+            let paid = &own - &delta;
+            if paid < BigInt::zero() {
+                return Err(v("locking-vault-gained", format!("vault {} gained {} attos beyond the program's own movement", mc_core::hex(&vault.0), -paid)));
+            }
+            if paid > big(*lk) {
+                return Err(v("paid-more-than-locked", format!("vault {} paid {} attos, locked {}", mc_core::hex(&vault.0), paid, lk)));
+            }
+            if !success && !non_contingent.contains(&vault) && !paid.is_zero() {
+                return Err(v("contingent-fee-taken-on-failure", format!("contingently locked vault {} paid {} attos in a failed commit", mc_core::hex(&vault.0), paid)));
+            }
+            let reported = c.fee_source.paying_vaults.get(&vault).map(|x| big(*x)).unwrap_or_else(BigInt::zero);
+            if reported != paid {
+                return Err(v("fee-source-mismatch", format!("vault {} decreased by {} attos, fee_source says {} attos", mc_core::hex(&vault.0), paid, reported)));
+            }
+            paid_sum += paid;
+        } else {
+            let expect = if vault == env.rewards_vault {
+                big(fd.to_proposer) + big(fd.to_validator_set)
+            } else if vault == env.pkg_royalty_vault {
+                pkg_share.clone()
+            } else if vault == env.comp_royalty_vault {
+                comp_share.clone()
+            } else {
+                own
+            };
+            if delta != expect {
+                let which = if vault == env.rewards_vault {
+                    "rewards-vault"
+                } else if vault == env.pkg_royalty_vault {
+                    "package-royalty-vault"
+                } else if vault == env.comp_royalty_vault {
+                    "component-royalty-vault"
+                } else {
+                    "other-xrd-vault"
+                };
+                return Err(v(&format!("{which}-delta"), format!("XRD vault {} changed by {} attos, expected {} attos", mc_core::hex(&vault.0), delta, expect)));
+            }
+        }
+    }
+    for vault in c.fee_source.paying_vaults.keys() {
+        if !locked.contains_key(vault) {
+            return Err(v("payer-not-a-locker", format!("fee_source names vault {} which no lock call targets", mc_core::hex(&vault.0))));
+        }
+    }
+    let credit_used = &total - &paid_sum;
+    if credit_used < BigInt::zero() {
+        return Err(v("overpaid", format!("locking vaults paid {} attos, total cost {} attos", paid_sum, total)));
+    }
+    if credit_used > big(spec.free_credit) {
+        return Err(v(
+            "underpaid",
+            format!("locking vaults paid {} attos + free credit {} < total cost {} attos (committed without covering its cost)", paid_sum, spec.free_credit, total),
+        ));
+    }
+    // proposer bookkeeping
+    let rb = read_rewards(&env.db).map_err(|e| v("decode", e))?;
+    let ra = read_rewards(after).map_err(|e| v("decode", e))?;
+    if rb.rewards_vault != ra.rewards_vault {
+        return Err(v("rewards-vault-replaced", "rewards vault reference changed".into()));
+    }
+    let mut grown = BigInt::zero();
+    let keys: BTreeSet<_> = rb.proposer_rewards.keys().chain(ra.proposer_rewards.keys()).copied().collect();
+    for k in keys {
+        grown += big(ra.proposer_rewards.get(&k).copied().unwrap_or(Decimal::ZERO)) - big(rb.proposer_rewards.get(&k).copied().unwrap_or(Decimal::ZERO));
+    }
+    if grown != big(fd.to_proposer) {
+        return Err(v("proposer-bookkeeping", format!("proposer rewards grew by {} attos, to_proposer = {}", grown, fd.to_proposer)));
+    }
+    Ok(seen)
+}
+
+struct Sink {
+    /// (order key, violation key, what, case)
+    violations: Mutex<Vec<(Vec<u64>, String, String, Value)>>,
+    commits: AtomicU64,
+    panics: AtomicU64,
+}
+
+/// Execute one grid point and judge it.
+fn run_spec(env: &Env, spec: &Spec, order: &[u64], l: &mut Local, sink: &Sink) -> Seen {
+    l.eval();
+    let (res, seen) = with_psim(&env.snap, |sim| {
+        let exe = executable(sim, env, spec);
+        let cfg = ExecutionConfig::for_test_transaction().update_system_overrides(|o| o.set_costing_parameters(Some(spec.cp)));
+        let r = mc_core::catch(|| sim.execute_transaction(exe, cfg));
+        match r {
+            Err(p) => (Err(p), None),
+            Ok(receipt) => {
+                let j = judge(env, spec, &receipt, sim.substate_db());
+                (Ok(j), Some(receipt_class(&receipt)))
+            }
+        }
+    });
+    match res {
+        Err(p) => {
+            sink.panics.fetch_add(1, Ordering::Relaxed);
+            let key = if p.contains("Locked fee does not cover transaction cost") {
+                format!("panic-locked-fee-does-not-cover-cost:{}:{}:lock={}", price_class(&spec.cp), tip_class(&spec.tip), spec.lock_class)
+            } else {
+                format!("panic@{}:{}:{}:lock={}", mc_core::last_panic_location(), price_class(&spec.cp), tip_class(&spec.tip), spec.lock_class)
+            };
+            l.class(&format!("{}:PANIC", lock_group(&spec.lock_class)));
+            sink.violations.lock().unwrap().push((
+                order.to_vec(),
+                key,
+                format!(
+                    "{} tip={} {} lock={:?}: engine panicked instead of rejecting/committing: {}",
+                    spec.prog.name(),
+                    tip_name(&spec.tip),
+                    spec.cp_name,
+                    spec.locks.iter().map(|l| format!("{:?}:{}{}", l.who, l.amount, if l.contingent { "(contingent)" } else { "" })).collect::<Vec<_>>(),
+                    mc_core::truncate(&p, 200)
+                ),
+                spec_json(spec),
+            ));
+            Seen { class: "panic".into(), total: None, success: false, rejected: false, panicked: true, exec_units: 0, fin_units: 0 }
+        }
+        Ok(Ok(s)) => {
+            if s.total.is_some() {
+                sink.commits.fetch_add(1, Ordering::Relaxed);
+            }
+            l.class(&format!("{}:{}", lock_group(&spec.lock_class), variant_path(&s.class, 2)));
+            s
+        }
+        Ok(Err((key, what))) => {
+            l.class(&format!("{}:VIOLATION", lock_group(&spec.lock_class)));
+            sink.violations.lock().unwrap().push((
+                order.to_vec(),
+                key,
+                format!("{} tip={} {} [{}]: {what}", spec.prog.name(), tip_name(&spec.tip), spec.cp_name, seen.unwrap_or_default()),
+                spec_json(spec),
+            ));
+            Seen { class: "violation".into(), total: None, success: false, rejected: false, panicked: false, exec_units: 0, fin_units: 0 }
+        }
+    }
+}
+
+/// coarse label for outcome classes (bisection probes and T−d variants are folded)
+fn lock_group(lock_class: &str) -> &str {
+    if lock_class.starts_with("bisect") {
+        "loan-boundary-search"
+    } else if lock_class.starts_with("total-") && lock_class != "total-1atto" {
+        "total-minus-d"
+    } else if lock_class.starts_with("fraction") {
+        "fraction-of-total"
+    } else {
+        lock_class
+    }
+}
+
+const BIG_LOCK: &str = "1000000000000";
+
+fn one_lock(amount: Decimal) -> Vec<Lock> {
+    vec![Lock { who: Payer::Faucet, amount, contingent: false }]
+}
+
+fn atto() -> Decimal {
+    Decimal::from_attos(I192::from(1u8))
+}
+
+/// All grid points of one (program, tip, costing set) group.
+fn run_group(env: &Env, prog: Prog, tip: TipSpecifier, cp_name: &str, cp: CostingParameters, gidx: u64, thorough: bool, with_limits: bool, l: &mut Local, sink: &Sink) {
+    let mk = |locks: Vec<Lock>, credit: Decimal, class: &str| Spec { prog, tip, cp, cp_name: cp_name.to_string(), locks, free_credit: credit, lock_class: class.to_string() };
+    let mut n = 0u64;
+    let mut go = |spec: Spec, l: &mut Local| -> Seen {
+        n += 1;
+        run_spec(env, &spec, &[gidx, n], l, sink)
+    };
+    let big_lock = d(BIG_LOCK);
+    // 1. ample
+    let ample = go(mk(one_lock(big_lock), Decimal::ZERO, "ample"), l);
+    // 2. two vaults (A locked second: pays first)
+    go(mk(vec![Lock { who: Payer::Faucet, amount: big_lock, contingent: false }, Lock { who: Payer::A, amount: dec!(5), contingent: false }], Decimal::ZERO, "two-vaults"), l);
+    // 3. non-contingent + contingent
+    go(mk(vec![Lock { who: Payer::Faucet, amount: big_lock, contingent: false }, Lock { who: Payer::B, amount: dec!(5), contingent: true }], Decimal::ZERO, "with-contingent"), l);
+    let Some(t) = ample.total else {
+        l.info("ample-lock-did-not-commit(no boundary runs)");
+        return;
+    };
+    if t.is_zero() {
+        l.info("total-cost-zero(no boundary runs)");
+        return;
+    }
+    // 4. boundary
+    let mut ds: Vec<(Decimal, String)> = vec![(atto(), "total-1atto".into())];
+    if thorough {
+        for (x, name) in [(2u64, "2atto"), (10, "10atto"), (1000, "1e3atto"), (1_000_000, "1e6atto"), (1_000_000_000, "1e9atto")] {
+            ds.push((Decimal::from_attos(I192::from(x)), format!("total-{name}")));
+        }
+    }
+    for (dd, name) in &ds {
+        if let Some(lock) = t.checked_sub(*dd) {
+            if !lock.is_negative() {
+                go(mk(one_lock(lock), Decimal::ZERO, name), l);
+            }
+        }
+    }
+    let at_total = go(mk(one_lock(t), Decimal::ZERO, "total"), l);
+    if at_total.total.is_some() && at_total.total != Some(t) {
+        l.info("total-differs-between-ample-and-exact-lock");
+    }
+    if at_total.rejected {
+        // seen for the failing royalty program: the royalty that is reverted later still has to be covered when
+        // the loan is repaid, so a lock equal to the final (royalty-free) cost is not enough; rejection changes nothing
+        l.info(&format!("lock=total rejected ({})", prog.name()));
+    }
+    go(mk(one_lock(t.checked_add(atto()).unwrap()), Decimal::ZERO, "total+1atto"), l);
+    // 5. fractions
+    let fracs: Vec<u32> = if thorough { vec![1, 2, 3, 4, 5, 6, 7] } else { vec![4] };
+    for j in fracs {
+        let lock = t.checked_mul(Decimal::from(j)).unwrap().checked_div(Decimal::from(8u32)).unwrap();
+        go(mk(one_lock(lock), Decimal::ZERO, &format!("fraction-{j}/8")), l);
+    }
+    // 6. free credit: half from the vault, rest from the credit (credit is used last)
+    let half = t.checked_div(Decimal::from(2u32)).unwrap();
+    go(mk(one_lock(half), t, "free-credit"), l);
+    // 7. smallest lock that is not rejected: bisection over [0, T]; every probe is judged
+    let mut lo = Decimal::ZERO; // rejected (or assumed: no lock at all cannot repay a positive loan)
+    let mut hi = t; // not rejected
+    let r0 = go(mk(one_lock(lo), Decimal::ZERO, "bisect"), l);
+    if r0.rejected {
+        let mut steps = 0;
+        while hi.checked_sub(lo).unwrap() > atto() && steps < 200 {
+            steps += 1;
+            let mid = lo.checked_add(hi).unwrap().checked_div(Decimal::from(2u32)).unwrap();
+            let s = go(mk(one_lock(mid), Decimal::ZERO, "bisect"), l);
+            if s.rejected {
+                lo = mid;
+            } else {
+                hi = mid;
+            }
+        }
+        l.class("loan-boundary-found");
+    } else {
+        l.info("zero-lock-not-rejected");
+    }
+    // 8. unit limits at the boundary (mainnet-like groups only)
+    if with_limits && ample.exec_units > 0 {
+        for (de, df, name) in [(1u32, 0u32, "exec-limit-1"), (0, 0, "limits-exact"), (0, 1, "fin-limit-1")] {
+            let mut c2 = cp;
+            c2.execution_cost_unit_limit = ample.exec_units - de;
+            c2.finalization_cost_unit_limit = ample.fin_units.saturating_sub(df);
+            let mut s = mk(one_lock(big_lock), Decimal::ZERO, name);
+            s.cp = c2;
+            s.cp_name = format!("{cp_name},exec_limit={},fin_limit={}", c2.execution_cost_unit_limit, c2.finalization_cost_unit_limit);
+            go(s, l);
+        }
+    }
+}
+
+pub fn run(ctx: Ctx) -> ! {
+    let env = build_env();
+    if ctx.replay.is_some() {
+        replay(ctx, &env);
+    }
+    let thorough = !ctx.quick();
+    let cap_s = wall_cap_override().unwrap_or(if thorough { 1080.0 } else { 52.0 });
+    let mut progs = vec![Prog::NoOp, Prog::Transfer, Prog::Mint, Prog::WasmCall, Prog::Royalty, Prog::RoyaltyThenFail, Prog::Failing];
+    if thorough {
+        progs.extend(env.bodies.keys().filter(|p| matches!(p, Prog::Menu(_))).copied());
+    }
+    let tips = tips(thorough);
+    let sets = costing_sets(thorough);
+    // groups ordered simplest first (program, tip, costing set): the order index decides which violation of a
+    // class is reported (the minimal one), independent of thread scheduling
+    let mut groups: Vec<(Prog, TipSpecifier, usize)> = vec![];
+    for p in &progs {
+        for t in &tips {
+            for (ci, _) in sets.iter().enumerate() {
+                groups.push((*p, *t, ci));
+            }
+        }
+    }
+    let sink = Sink { violations: Mutex::new(vec![]), commits: AtomicU64::new(0), panics: AtomicU64::new(0) };
+    let capped = AtomicBool::new(false);
+    let groups_done = AtomicU64::new(0);
+    par_range(&ctx, groups.len() as u64, 1, |g, l| {
+        if ctx.elapsed_s() > cap_s {
+            capped.store(true, Ordering::Relaxed);
+            return;
+        }
+        let (p, t, ci) = groups[g as usize];
+        let (name, cp) = &sets[ci];
+        let with_limits = name == "mainnet";
+        run_group(&env, p, t, name, *cp, g, thorough, with_limits, l, &sink);
+        groups_done.fetch_add(1, Ordering::Relaxed);
+        if g % 97 == 0 {
+            l.sample(|| json!({"program": p.name(), "tip": tip_name(&t), "costing": name}));
+        }
+    });
+    let mut vs = sink.violations.into_inner().unwrap();
+    vs.sort_by(|a, b| a.0.cmp(&b.0));
+    let total_violations = vs.len();
+    for (_o, key, what, case) in vs {
+        ctx.violation(key, what, case);
+    }
+    let capped = capped.load(Ordering::Relaxed);
+    let mut cov = Map::new();
+    cov.insert("programs".into(), json!(progs.iter().map(|p| p.name()).collect::<Vec<_>>()));
+    cov.insert("tips".into(), json!(tips.iter().map(tip_name).collect::<Vec<_>>()));
+    cov.insert("costing_sets".into(), json!(sets.iter().map(|s| s.0.clone()).collect::<Vec<_>>()));
+    cov.insert("groups".into(), json!(groups.len()));
+    cov.insert("groups_done".into(), json!(groups_done.load(Ordering::Relaxed)));
+    cov.insert("commits_fully_checked".into(), json!(sink.commits.load(Ordering::Relaxed)));
+    cov.insert("panics".into(), json!(sink.panics.load(Ordering::Relaxed)));
+    cov.insert("violating_grid_points".into(), json!(total_violations));
+    cov.insert("caps_hit".into(), json!(capped));
+    cov.insert("probe_royalties".into(), json!({"package_xrd": PKG_ROYALTY_XRD, "component_usd": COMP_ROYALTY_USD}));
+    let nontrivial = sink.commits.load(Ordering::Relaxed);
+    ctx.finish(
+        Level::Exploration,
+        "a case is one grid point (program, tip specifier, costing parameter set, lock pattern incl. every probe of the loan-boundary bisection) executed on the real engine from the same root snapshot; non-trivial = grid points that committed and went through the complete fee identity oracle (receipt arithmetic in BigInt + before/after scan of every XRD vault)",
+        nontrivial,
+        !capped,
+        cov,
+        &[
+            "prices/tips are a boundary lattice, not all values; storage cost is taken from the receipt (no independent byte count), only its zero case is predicted",
+            "shares (tips 100% proposer; network fees 25% proposer, 25% validator set, rest burnt) and the tip formula are the reference semantics of DESIGN Appendix A.3",
+            "payer with an ample balance is the faucet component (10^17 XRD at genesis); A and B are the second / contingent payers",
+            "test transactions are built directly as executables (tip and free credit in the execution context), so transaction validation limits on the tip are not in the loop",
+        ],
+    )
+}
+
+fn replay(ctx: Ctx, env: &Env) -> ! {
+    let case = ctx.read_replay_case().unwrap();
+    let prog = env.bodies.keys().copied().find(|p| Some(p.name().as_str()) == case["program"].as_str()).unwrap_or_else(|| mc_core::machinery_error("replay: unknown program"));
+    let tip = if let Some(p) = case["tip"].get("percentage").and_then(|x| x.as_u64()) {
+        TipSpecifier::Percentage(p as u16)
+    } else if let Some(b) = case["tip"].get("basis_points").and_then(|x| x.as_u64()) {
+        TipSpecifier::BasisPoints(b as u32)
+    } else {
+        TipSpecifier::None
+    };
+    let cj = &case["costing"];
+    let ds = |k: &str| d(cj[k].as_str().unwrap_or("0"));
+    let mut cp = CostingParameters::babylon_genesis();
+    cp.execution_cost_unit_price = ds("execution_cost_unit_price");
+    cp.finalization_cost_unit_price = ds("finalization_cost_unit_price");
+    cp.usd_price = ds("usd_price");
+    cp.state_storage_price = ds("state_storage_price");
+    cp.archive_storage_price = ds("archive_storage_price");
+    cp.execution_cost_unit_limit = cj["execution_cost_unit_limit"].as_u64().unwrap_or(cp.execution_cost_unit_limit as u64) as u32;
+    cp.execution_cost_unit_loan = cj["execution_cost_unit_loan"].as_u64().unwrap_or(cp.execution_cost_unit_loan as u64) as u32;
+    cp.finalization_cost_unit_limit = cj["finalization_cost_unit_limit"].as_u64().unwrap_or(cp.finalization_cost_unit_limit as u64) as u32;
+    let locks: Vec<Lock> = case["locks"]
+        .as_array()
+        .map(|a| {
+            a.iter()
+                .map(|x| Lock {
+                    who: match x["payer"].as_str() {
+                        Some("A") => Payer::A,
+                        Some("B") => Payer::B,
+                        _ => Payer::Faucet,
+                    },
+                    amount: d(x["amount"].as_str().unwrap_or("0")),
+                    contingent: x["contingent"].as_bool().unwrap_or(false),
+                })
+                .collect()
+        })
+        .unwrap_or_default();
+    let spec = Spec {
+        prog,
+        tip,
+        cp,
+        cp_name: cj["name"].as_str().unwrap_or("").to_string(),
+        locks,
+        free_credit: d(case["free_credit"].as_str().unwrap_or("0")),
+        lock_class: case["lock_class"].as_str().unwrap_or("replay").to_string(),
+    };
+    let sink = Sink { violations: Mutex::new(vec![]), commits: AtomicU64::new(0), panics: AtomicU64::new(0) };
+    let mut l = Local::new();
+    let seen = run_spec(env, &spec, &[0], &mut l, &sink);
+    println!("replayed {}: observed {:?}", serde_json::to_string(&spec_json(&spec)).unwrap(), seen);
+    for (_o, key, what, case) in sink.violations.into_inner().unwrap() {
+        println!("observed violation: {key} :: {what}");
+        l.violation(key, what, case);
+    }
+    ctx.merge(l);
+    ctx.finish(Level::Exploration, "replay", 1, false, Map::new(), &[])
 }
